@@ -5,6 +5,7 @@ import (
 	"bytes"
 	"context"
 	"fmt"
+	"io"
 	"strings"
 	"sync"
 	"testing"
@@ -115,6 +116,92 @@ func scenario(spec *bk.Spec, p c14prog.Program, bound int) *sched.Config {
 		}}
 }
 
+// compactionScenario: encrypt's background meta compaction (started by the
+// upload that brings the number of small meta blobs to 101, in its own
+// goroutine) interleaved with the end of that very upload and a concurrent
+// fetch. Afterwards, and after the store's own recovery (restart with a wiped
+// meta index: everything must come back from the wrapped stores), every
+// acknowledged blob must be fetchable with the right bytes.
+func compactionScenario(spec *bk.Spec, bound int) *sched.Config {
+	const n = 101
+	blobs := make([]hs.Blob, n)
+	for i := range blobs {
+		blobs[i] = hs.Mk(fmt.Sprintf("m%d", i), []byte(fmt.Sprintf("small plaintext blob number %d", i)), "")
+	}
+	return &sched.Config{Name: spec.Name + "/meta-compaction", Bound: bound, DelayBound: !vk.Thorough(), SigPrefix: "C14|" + spec.Name + "|meta-compaction", MaxSteps: 50000,
+		Body: func(x *sched.X) {
+			env := bk.NewEnv()
+			defer env.Close()
+			env.Hook = func(store, op string, br blob.Ref) error {
+				vsync.Point(store + op)
+				return nil
+			}
+			sto, err := spec.Build(env)
+			if err != nil {
+				panic(err)
+			}
+			acked := map[string]hs.Blob{}
+			for _, b := range blobs[:n-1] {
+				if _, err := blobserver.Receive(ctx, sto, b.Ref, bytes.NewReader(b.Data)); err != nil {
+					panic(err)
+				}
+				acked[b.Name] = b
+			}
+			var fetchErr error
+			x.Go("uploader", func() {
+				b := blobs[n-1]
+				if _, err := blobserver.Receive(ctx, sto, b.Ref, bytes.NewReader(b.Data)); err == nil {
+					acked[b.Name] = b
+				}
+			})
+			x.Go("reader", func() {
+				rc, _, err := sto.Fetch(ctx, blobs[0].Ref)
+				if err != nil {
+					fetchErr = err
+					return
+				}
+				rc.Close()
+			})
+			x.Run() // runs until the compaction goroutine is done too
+			if x.Deadlock {
+				x.Fail("hang", "receive or compaction never finished: "+strings.Join(x.S.ParkedLabels(), " "))
+				return
+			}
+			if x.Horizon {
+				return
+			}
+			if fetchErr != nil {
+				x.Fail("concurrent-fetch-fails", fmt.Sprintf("Fetch(m0) concurrent with the compaction failed: %v", fetchErr))
+				return
+			}
+			check := func(phase string, s blobserver.Storage) bool {
+				for _, b := range acked {
+					rc, _, err := s.Fetch(ctx, b.Ref)
+					if err != nil {
+						x.Fail(phase+"|acknowledged-blob-lost", fmt.Sprintf("%s: Fetch(%s) fails: %v", phase, b.Name, err))
+						return false
+					}
+					d, _ := io.ReadAll(rc)
+					rc.Close()
+					if !bytes.Equal(d, b.Data) {
+						x.Fail(phase+"|wrong-bytes", fmt.Sprintf("%s: Fetch(%s) returned different bytes", phase, b.Name))
+						return false
+					}
+				}
+				return true
+			}
+			if !check("live", sto) {
+				return
+			}
+			rsto, err := spec.Recover(env)
+			if err != nil {
+				x.Fail("recovery-fails", fmt.Sprintf("restart with a wiped meta index fails: %v", err))
+				return
+			}
+			check("after-recovery", rsto)
+		}}
+}
+
 func maskNames(m uint32) string {
 	var s []string
 	for i, n := range c14prog.Names {
@@ -141,6 +228,9 @@ func scenarios() []*sched.Config {
 				continue
 			}
 			out = append(out, scenario(sp, p, bound))
+		}
+		if sp.Name == "encrypt" {
+			out = append(out, compactionScenario(sp, 2))
 		}
 	}
 	return out
